@@ -135,10 +135,10 @@ Fam_SkipSame3 ==
 Sibs == {S \in SUBSET [pos : Points, active : BOOLEAN] : Cardinality(S) <= 2}
 Fam_Far ==
     { [fam |-> "far", thr |-> thr, ord |-> ord, sibs |-> S, cands |-> PosCands("A", ps)] :
-        thr \in {3, 5, 9, 10}, ord \in {1, 2, 3, 4, 5}, S \in Sibs, ps \in {X \in SUBSET Points : Cardinality(X) \in 1..2} }
+        thr \in {0, 3, 5, 9, 10}, ord \in {1, 2, 3, 4, 5}, S \in Sibs, ps \in {X \in SUBSET Points : Cardinality(X) \in 1..2} }
 Fam_NBCFar ==
     { [fam |-> "nbcfar", factor |-> f, mean |-> m, only |-> o, sibs |-> S, cands |-> PosCands("A", ps)] :
-        f \in {1, 2}, m \in {0, 5}, o \in BOOLEAN, S \in Sibs, ps \in {X \in SUBSET Points : Cardinality(X) \in 1..2} }
+        f \in {0, 1, 2}, m \in {0, 5}, o \in BOOLEAN, S \in Sibs, ps \in {X \in SUBSET Points : Cardinality(X) \in 1..2} }
 
 Ids(C) == {c.id : c \in C}
 Row_DemeLimit(c)  == [fam |-> c.fam, k |-> c.k, cands |-> SetToSeq(c.cands),
